@@ -1,7 +1,8 @@
 import SaphyrVerif.Lemmas.C13_Lex
 /-!
 C13 proof machinery, part 3b: the reference reader maps the layout of a fragment value back to
-`erase v`.  Fuel: every lemma asks for `2 * (characters of the node's own lines) + 1`; the root
+`erase v`, for all token functions that satisfy `ReadContract` (`ScalarTok`: a token alone on a line reads as
+its string; `KeyTok`: a token followed by `:` is an implicit key that reads as its string).  Fuel: every lemma asks for `2 * (characters of the node's own lines) + 1`; the root
 supplies `2 * text.length + …`.
 -/
 set_option linter.unusedSimpArgs false
@@ -53,6 +54,47 @@ theorem notSkippable_of_head {i : Nat} {c : Char} {cs : List Char} (hc : c ≠ '
     (⟨i, c :: cs⟩ : Line).isSkippable = false := by
   simp [Line.isSkippable, hc]
 
+/-! ### tokens: what the reader must make of the text written for a string -/
+
+/-- A scalar token that reads as `p`: as the only thing on a line (after the indentation, or after
+`- `, `? `, `: `, `key: ` on that line), followed by lines that do not continue it, the reader takes it
+for the scalar `p`; it can start a line (no leading blank, `#`, `%`; not a document marker) and lies on
+one line. -/
+structure ScalarTok (t : List Char) (p : PVal) : Prop where
+  read : ∀ (fuel n : Nat) (seqAt : Option Nat) (inl : Bool) (i : Nat) (rest : List Line), n ≤ i → DedLt n rest →
+    blockNode (fuel + 1) n seqAt inl (⟨i, t⟩ :: rest) = some (p, rest)
+  ne : t ≠ []
+  head : t.head? ≠ some ' ' ∧ t.head? ≠ some '#' ∧ t.head? ≠ some '%'
+  chars : ∀ x ∈ t, lineChar x = true
+  noMarker : isDocMarker ⟨0, t⟩ "---".toList = false ∧ isDocMarker ⟨0, t⟩ "...".toList = false
+
+/-- first characters of a key token: not a blank, `#`, `%`, `!`, nor an indicator that sends the reader
+elsewhere before it looks for an implicit key -/
+def keyStart (c : Char) : Bool :=
+  !(c == ' ' || c == '#' || c == '%' || c == '!' || c == '[' || c == '{' || c == '|' || c == '>' || c == '&' || c == '*' ||
+    c == '@' || c == '`')
+
+/-- A key token for the string `s`: followed by `:` and the end of the line or a blank it is an
+implicit key that reads as the string `s`; the line is not taken for a sequence entry / explicit key, can
+start a line and lies on one line. -/
+structure KeyTok (K : List Char) (s : List Char) : Prop where
+  ik : ∀ after, colonEndsKey after = true → implicitKey (K ++ ':' :: after) = some (.str s, after)
+  cls : ∀ after, classify (K ++ ':' :: after) = .other
+  start : ∃ c cs, K = c :: cs ∧ keyStart c = true
+  chars : ∀ x ∈ K, lineChar x = true
+  noMarker : ∀ after, isDocMarker ⟨0, K ++ ':' :: after⟩ "---".toList = false ∧
+    isDocMarker ⟨0, K ++ ':' :: after⟩ "...".toList = false
+
+/-- what the reader theorems assume about the tokens `T` written for the strings of a class `P` -/
+structure ReadContract (P : LeafPred) (T : Toks) : Prop where
+  str : ∀ s, P.str s = true → ScalarTok (T.str s) (.str s)
+  unit : ∀ e n, P.unit e n = true → ScalarTok (T.unit e n) (.str n)
+  key : ∀ s, P.key s = true → KeyTok (T.key s) s
+  name : ∀ n, P.name n = true → KeyTok (T.name n) n
+
+theorem keyStart_ne {c : Char} (h : keyStart c = true) (x : Char) (hx : keyStart x = false) : c ≠ x := by
+  rintro rfl; rw [h] at hx; exact Bool.noConfusion hx
+
 /-! ### scalars and empty collections -/
 
 theorem blockNode_plain (fuel n : Nat) (seqAt : Option Nat) (inl : Bool) (i : Nat) {t : List Char}
@@ -74,6 +116,45 @@ theorem blockNode_plain (fuel n : Nat) (seqAt : Option Nat) (inl : Bool) (i : Na
     hne '\'' (by decide), hne '#' (by decide), Bool.or_self, Bool.false_eq_true, if_false]
   rw [← e, implicitKey_plainTok ht, plainFirstLine_plainTok ht]
   simp only [Bool.false_eq_true, if_false, plainContinuation_ded hd]
+
+/-- a text whose first character is not `-` / `.`, or that starts with `-` and another character, is no document marker -/
+theorem notMarker_head {t : List Char} {c : Char} {cs : List Char} (e : t = c :: cs)
+    (h1 : c ≠ '-' ∨ ∃ c2 cs2, cs = c2 :: cs2 ∧ c2 ≠ '-') (h2 : c ≠ '.') (i : Nat) :
+    isDocMarker ⟨i, t⟩ "---".toList = false ∧ isDocMarker ⟨i, t⟩ "...".toList = false := by
+  subst e
+  refine ⟨?_, ?_⟩
+  · simp only [isDocMarker, Bool.and_eq_false_iff]
+    left; right
+    rcases h1 with h1 | ⟨c2, cs2, rfl, hc2⟩
+    · cases cs with
+      | nil => simp
+      | cons a as => cases as <;> simp [h1]
+    · cases cs2 <;> simp [hc2]
+  · simp only [isDocMarker, Bool.and_eq_false_iff]
+    left; right
+    cases cs with
+    | nil => simp
+    | cons a as => cases as <;> simp [h2]
+
+theorem tok_lineChar {c : Char} (h : isTokChar c = true) : lineChar c = true := by
+  have h1 := isTokChar_ne h '\n' (by decide)
+  have h2 := isTokChar_ne h '\r' (by decide)
+  have h3 := isTokChar_ne h (Char.ofNat 0) (by decide)
+  simp [lineChar, h1, h2, h3]
+
+/-- a plain token of the fragment alphabet is a scalar token (for what it resolves to) -/
+theorem PlainTok.scalarTok {t : List Char} (h : PlainTok t)
+    (hd : ∀ cs, t = '-' :: cs → ∃ c2 cs2, cs = c2 :: cs2 ∧ c2 ≠ '-') : ScalarTok t (resolvePlain t) := by
+  obtain ⟨c, cs, e, hc⟩ := h.head
+  refine ⟨fun fuel n seqAt inl i rest hi hdd => blockNode_plain fuel n seqAt inl i rest h hi hdd, h.ne, ?_,
+    fun x hx => tok_lineChar (h.chars x hx), ?_⟩
+  · subst e
+    simp only [List.head?_cons, ne_eq, Option.some.injEq]
+    exact ⟨isTokChar_ne hc ' ' (by decide), isTokChar_ne hc '#' (by decide), isTokChar_ne hc '%' (by decide)⟩
+  · refine notMarker_head e ?_ (isTokChar_ne hc '.' (by decide)) 0
+    by_cases hm : c = '-'
+    · subst hm; exact Or.inr (hd cs e)
+    · exact Or.inl hm
 
 theorem blockNode_emptySeq (fuel n : Nat) (seqAt : Option Nat) (inl : Bool) (i : Nat) (rest : List Line)
     (hi : n ≤ i) : blockNode (fuel + 1) n seqAt inl (⟨i, "[]".toList⟩ :: rest) = some (.seq [], rest) := by
@@ -149,6 +230,8 @@ def ValHead (h : List Char) : Prop := h = [] ∨ ∃ t, h = ' ' :: t ∧ ItemHea
 theorem ValHead.colonEnds {h : List Char} (hh : ValHead h) : colonEndsKey h = true := by
   rcases hh with rfl | ⟨t, rfl, _⟩ <;> simp [colonEndsKey]
 
+theorem KeyTok.head {K s : List Char} (hk : KeyTok K s) : ∃ c cs, K = c :: cs ∧ keyStart c = true := hk.start
+
 theorem blockMap_end (fuel c : Nat) {rest : List Line} (h : DedLt c rest) :
     blockMap (fuel + 1) c rest = some ([], rest) := by
   rw [blockMap, skipBlank_ded h]
@@ -158,43 +241,52 @@ theorem blockMap_end (fuel c : Nat) {rest : List Line} (h : DedLt c rest) :
     have h2 : ¬ (l.indent > c) := by omega
     simp [h1, h2]
 
-theorem key_line_notSkippable {k : List Char} (hk : isSafeStr k = true) (i : Nat) (after : List Char) :
-    (⟨i, k ++ ':' :: after⟩ : Line).isSkippable = false := by
-  obtain ⟨c, cs, rfl, hc, _, _⟩ := safe_cons hk
-  exact notSkippable_of_head (by rintro rfl; exact absurd hc (by decide))
+theorem key_line_notSkippable {K k : List Char} (hk : KeyTok K k) (i : Nat) (after : List Char) :
+    (⟨i, K ++ ':' :: after⟩ : Line).isSkippable = false := by
+  obtain ⟨c, cs, rfl, hc⟩ := hk.start
+  exact notSkippable_of_head (keyStart_ne hc '#' (by decide))
 
-theorem blockMap_cons (fuel c : Nat) {k h : List Char} (ls : List Line) (hk : isSafeStr k = true) (hh : ValHead h) :
-    blockMap (fuel + 1) c (⟨c, k ++ ':' :: h⟩ :: ls) =
-      (match valueParse fuel c (k.length + 1) h ls with
+theorem blockMap_cons (fuel c : Nat) {K k h : List Char} (ls : List Line) (hk : KeyTok K k) (hh : ValHead h) :
+    blockMap (fuel + 1) c (⟨c, K ++ ':' :: h⟩ :: ls) =
+      (match valueParse fuel c (K.length + 1) h ls with
        | none => none
        | some (v, r) => (blockMap fuel c r).map fun (es, r) => ((.str k, v) :: es, r)) := by
   rw [blockMap, skipBlank_cons ls (key_line_notSkippable hk c h)]
-  simp only [bne_self_eq_false, Bool.false_eq_true, if_false, classify_key hk h, implicitKey_key hk h hh.colonEnds]
-  have hlen : (k ++ ':' :: h).length - h.length = k.length + 1 := by simp; omega
+  simp only [bne_self_eq_false, Bool.false_eq_true, if_false, hk.cls h, hk.ik h hh.colonEnds]
+  have hlen : (K ++ ':' :: h).length - h.length = K.length + 1 := by simp; omega
   simp only [hlen, valueParse]
   rfl
 
-/-- a block node whose first line is `key:…` with a safe key is the block mapping at that indentation -/
-theorem blockNode_key (fuel n : Nat) (seqAt : Option Nat) (i : Nat) {k h : List Char} (ls : List Line)
-    (hk : isSafeStr k = true) (hh : ValHead h) (hi : n ≤ i) :
-    blockNode (fuel + 1) n seqAt false (⟨i, k ++ ':' :: h⟩ :: ls) =
-      (match blockMap fuel i (⟨i, k ++ ':' :: h⟩ :: ls) with
+theorem skipTag_keyStart {c : Char} (cs : List Char) (hc : keyStart c = true) : skipTag (c :: cs) = c :: cs := by
+  unfold skipTag
+  split
+  · rename_i he
+    simp only [List.cons.injEq] at he
+    exact absurd he.1 (keyStart_ne hc '!' (by decide))
+  · rfl
+
+/-- a block node whose first line is `key:…` with a key token is the block mapping at that indentation -/
+theorem blockNode_key (fuel n : Nat) (seqAt : Option Nat) (i : Nat) {K k h : List Char} (ls : List Line)
+    (hk : KeyTok K k) (hh : ValHead h) (hi : n ≤ i) :
+    blockNode (fuel + 1) n seqAt false (⟨i, K ++ ':' :: h⟩ :: ls) =
+      (match blockMap fuel i (⟨i, K ++ ':' :: h⟩ :: ls) with
        | some (es, r) => if hasDupKey es then none else some (.map es, r)
        | none => none) := by
-  obtain ⟨c, cs, rfl, hc, hcs, hres⟩ := safe_cons hk
-  have htc : isTokChar c = true := alnum_tok (alpha_alnum hc)
+  have hcls := hk.cls h
+  have hik := hk.ik h hh.colonEnds
+  have hns := key_line_notSkippable hk i h
+  obtain ⟨c, cs, rfl, hc⟩ := hk.start
   have hlt : ¬ (i < n) := by omega
-  have hne : ∀ x : Char, isTokChar x = false → (c == x) = false := fun x hx => by
-    simp only [beq_eq_false_iff_ne]; exact isTokChar_ne htc x hx
-  have hsk : skipTag ((c :: cs) ++ ':' :: h) = (c :: cs) ++ ':' :: h := skipTag_tok (c := c) (cs := cs ++ ':' :: h) rfl htc
-  rw [blockNode, skipBlank_cons ls (key_line_notSkippable hk i h)]
-  simp only [classify_key hk h, hlt, decide_false, Bool.false_and, Bool.false_eq_true, if_false, hsk]
+  have hne : ∀ x : Char, keyStart x = false → (c == x) = false := fun x hx => by
+    simp only [beq_eq_false_iff_ne]; exact keyStart_ne hc x hx
+  have hsk : skipTag ((c :: cs) ++ ':' :: h) = (c :: cs) ++ ':' :: h := skipTag_keyStart _ hc
+  rw [blockNode, skipBlank_cons ls hns]
+  simp only [hcls, hlt, decide_false, Bool.false_and, Bool.false_eq_true, if_false, hsk]
   simp only [List.cons_append, hne '[' (by decide), hne '{' (by decide), hne '|' (by decide), hne '>' (by decide),
     hne '&' (by decide), hne '*' (by decide), hne '%' (by decide), hne '@' (by decide), hne '`' (by decide),
     Bool.or_self, Bool.false_eq_true, if_false]
-  have := implicitKey_key hk h hh.colonEnds
-  simp only [List.cons_append] at this
-  simp [this]
+  simp only [List.cons_append] at hik
+  simp [hik]
   rfl
 
 /-! ### explicit keys `? key` / `: value` -/
@@ -296,81 +388,118 @@ theorem PlainTok.itemHead {t : List Char} (h : PlainTok t) : ItemHead t := by
   obtain ⟨c, cs, rfl, hc⟩ := h.head
   exact ⟨by simp, by simp only [List.head?_cons, ne_eq, Option.some.injEq]; rintro rfl; exact absurd hc (by decide)⟩
 
-theorem safe_key_itemHead {k : List Char} (hk : isSafeStr k = true) (after : List Char) : ItemHead (k ++ ':' :: after) := by
-  obtain ⟨c, cs, rfl, hc, _, _⟩ := safe_cons hk
-  exact ⟨by simp, by simp only [List.cons_append, List.head?_cons, ne_eq, Option.some.injEq]; rintro rfl; exact absurd hc (by decide)⟩
+theorem ScalarTok.itemHead {t : List Char} {p : PVal} (h : ScalarTok t p) : ItemHead t := ⟨h.ne, h.head.1⟩
 
-theorem variantItem_head {n : List Char} (hn : isSafeStr n = true) (r : List Char × List Line × Bool) :
-    ItemHead (variantItem n r).1 := by
-  simpa [variantItem] using safe_key_itemHead hn r.1
+theorem key_itemHead {K k : List Char} (hk : KeyTok K k) (after : List Char) : ItemHead (K ++ ':' :: after) := by
+  obtain ⟨c, cs, rfl, hc⟩ := hk.start
+  exact ⟨by simp, by simp only [List.cons_append, List.head?_cons, ne_eq, Option.some.injEq]; exact keyStart_ne hc ' ' (by decide)⟩
 
-theorem leafTok_plainTok {w : Nat} {v : SVal} {tok : List Char} (hv : inFrag w v = true) (ht : leafTok v = some tok) :
-    PlainTok tok := by
+theorem variantItem_head {N n : List Char} (hn : KeyTok N n) (r : List Char × List Line × Bool) :
+    ItemHead (variantItem N r).1 := by
+  simpa [variantItem] using key_itemHead hn r.1
+
+/-- the fixed tokens -/
+theorem scalarTok_null : ScalarTok "null".toList .null := by
+  simpa [resolvePlain_null] using plainTok_null.scalarTok (fun cs e => by simp at e)
+theorem scalarTok_true : ScalarTok "true".toList (.bool true) := by
+  simpa [resolvePlain_true] using plainTok_true.scalarTok (fun cs e => by simp at e)
+theorem scalarTok_false : ScalarTok "false".toList (.bool false) := by
+  simpa [resolvePlain_false] using plainTok_false.scalarTok (fun cs e => by simp at e)
+theorem scalarTok_bool (b : Bool) : ScalarTok (if b then "true".toList else "false".toList) (.bool b) := by
+  cases b
+  · exact scalarTok_false
+  · exact scalarTok_true
+
+theorem intText_dash (i : Int) : ∀ cs, intText i = '-' :: cs → ∃ c2 cs2, cs = c2 :: cs2 ∧ c2 ≠ '-' := by
+  intro cs e
+  cases i with
+  | ofNat n =>
+    rw [intText_nonneg] at e
+    have := List.all_eq_true.mp (digits_all n) '-' (by rw [e]; simp)
+    exact absurd this (by decide)
+  | negSucc n =>
+    rw [intText_neg] at e
+    simp only [List.cons.injEq, true_and] at e
+    have hne := Nat.toDigits_ne_nil (n := n + 1) (b := 10)
+    rw [e] at hne
+    cases cs with
+    | nil => exact absurd rfl hne
+    | cons c2 cs2 =>
+      refine ⟨c2, cs2, rfl, ?_⟩
+      rintro rfl
+      have := List.all_eq_true.mp (digits_all (n + 1)) '-' (by rw [e]; simp)
+      exact absurd this (by decide)
+
+theorem scalarTok_int (i : Int) : ScalarTok (intText i) (.int i) := by
+  simpa [resolvePlain_int] using (intText_plainTok i).scalarTok (intText_dash i)
+
+/-- the token of a leaf of the fragment reads as the leaf -/
+theorem leafTok_scalarTok {P : LeafPred} {T : Toks} (hr : ReadContract P T) {v : SVal} {tok : List Char}
+    (hv : inFragP P v = true) (ht : leafTok T v = some tok) : ScalarTok tok (erase v) := by
   cases v <;> simp only [leafTok, Option.some.injEq, reduceCtorEq] at ht
-  · subst ht; exact plainTok_null
-  · rename_i b; subst ht; cases b
-    · exact plainTok_false
-    · exact plainTok_true
-  · subst ht; exact intText_plainTok _
-  · subst ht; simp only [inFrag, Bool.and_eq_true] at hv; exact safe_plainTok hv.1
-  · subst ht; exact plainTok_null
-  · subst ht; simp only [inFrag, Bool.and_eq_true] at hv; exact safe_plainTok hv.1
+  · subst ht; exact scalarTok_null
+  · subst ht; exact scalarTok_bool _
+  · subst ht; exact scalarTok_int _
+  · subst ht; simp only [inFragP] at hv; exact hr.str _ hv
+  · subst ht; exact scalarTok_null
+  · subst ht; simp only [inFragP] at hv; exact hr.unit _ _ hv
 
 theorem keyOf_complex' : ∀ (k : SVal), isComplexKey k = true → keyOf k = none := by
   intro k h
   cases k <;> first | rfl | (simp [isComplexKey] at h)
 
-theorem laySeqItem_head (k : Nat) (cp : Bool) (d : Nat) (lvb : Bool) (xs : List SVal) : ItemHead (laySeqItem k cp d lvb xs).1 := by
+theorem laySeqItem_head (T : Toks) (k : Nat) (cp : Bool) (d : Nat) (lvb : Bool) (xs : List SVal) : ItemHead (laySeqItem T k cp d lvb xs).1 := by
   cases xs <;> simp only [laySeqItem]
   · exact ⟨by decide, by decide⟩
   · exact ⟨by simp, by simp⟩
 
-theorem itemHead_layItem {w : Nat} (k : Nat) (cp : Bool) : ∀ (v : SVal), inFrag w v = true → ∀ (d : Nat) (lvb : Bool), ItemHead (layItem k cp d lvb v).1
+theorem itemHead_layItem {P : LeafPred} {T : Toks} (hr : ReadContract P T) (k : Nat) (cp : Bool) : ∀ (v : SVal), inFragP P v = true → ∀ (d : Nat) (lvb : Bool), ItemHead (layItem T k cp d lvb v).1
   | .unit, _, d, lvb => by simpa [layItem] using plainTok_null.itemHead
   | .none, _, d, lvb => by simpa [layItem] using plainTok_null.itemHead
   | .bool b, _, d, lvb => by cases b <;> simpa [layItem] using (by first | exact plainTok_true.itemHead | exact plainTok_false.itemHead)
   | .int i, _, d, lvb => by simpa [layItem] using (intText_plainTok i).itemHead
   | .str t, hv, d, lvb => by
-    simp only [inFrag, Bool.and_eq_true] at hv
-    simpa [layItem] using (safe_plainTok hv.1).itemHead
+    simp only [inFragP] at hv
+    simpa [layItem] using (hr.str t hv).itemHead
   | .unitVariant e n, hv, d, lvb => by
-    simp only [inFrag, Bool.and_eq_true] at hv
-    simpa [layItem] using (safe_plainTok hv.1).itemHead
-  | .some v, hv, d, lvb => by simp only [inFrag] at hv; simpa [layItem] using itemHead_layItem k cp v hv d lvb
-  | .newtypeStruct v, hv, d, lvb => by simp only [inFrag] at hv; simpa [layItem] using itemHead_layItem k cp v hv d lvb
+    simp only [inFragP] at hv
+    simpa [layItem] using (hr.unit e n hv).itemHead
+  | .some v, hv, d, lvb => by simp only [inFragP] at hv; simpa [layItem] using itemHead_layItem hr k cp v hv d lvb
+  | .newtypeStruct v, hv, d, lvb => by simp only [inFragP] at hv; simpa [layItem] using itemHead_layItem hr k cp v hv d lvb
   | .newtypeVariant n v, hv, d, lvb => by
-    simp only [inFrag, Bool.and_eq_true] at hv
-    simp only [layItem]; exact variantItem_head hv.1 _
+    simp only [inFragP, Bool.and_eq_true] at hv
+    simp only [layItem]; exact variantItem_head (hr.name n hv.1) _
   | .tupleVariant n xs, hv, d, lvb => by
-    simp only [inFrag, Bool.and_eq_true] at hv
-    simp only [layItem]; exact variantItem_head hv.1 _
+    simp only [inFragP, Bool.and_eq_true] at hv
+    simp only [layItem]; exact variantItem_head (hr.name n hv.1) _
   | .structVariant n fs, hv, d, lvb => by
-    simp only [inFrag, Bool.and_eq_true] at hv
-    simp only [layItem]; exact variantItem_head hv.1 _
-  | .seq xs, _, d, lvb => by simp only [layItem]; exact laySeqItem_head k cp d lvb xs
-  | .tuple xs, _, d, lvb => by simp only [layItem]; exact laySeqItem_head k cp d lvb xs
-  | .tupleStruct xs, _, d, lvb => by simp only [layItem]; exact laySeqItem_head k cp d lvb xs
+    simp only [inFragP, Bool.and_eq_true] at hv
+    simp only [layItem]; exact variantItem_head (hr.name n hv.1) _
+  | .seq xs, _, d, lvb => by simp only [layItem]; exact laySeqItem_head T k cp d lvb xs
+  | .tuple xs, _, d, lvb => by simp only [layItem]; exact laySeqItem_head T k cp d lvb xs
+  | .tupleStruct xs, _, d, lvb => by simp only [layItem]; exact laySeqItem_head T k cp d lvb xs
   | .map known es, hv, d, lvb => by
-    simp only [inFrag, Bool.and_eq_true] at hv
+    simp only [inFragP, Bool.and_eq_true] at hv
     cases es with
     | nil => simp only [layItem, layMapItem]; exact ⟨by decide, by decide⟩
     | cons e es' =>
       obtain ⟨kk, v⟩ := e
-      simp only [inFragEntries, Bool.and_eq_true, Bool.or_eq_true] at hv
+      simp only [inFragEntriesP, Bool.and_eq_true, Bool.or_eq_true] at hv
       rcases hv.1.1.1 with hsk | hck
-      · obtain ⟨kt, rfl, hkt⟩ := isSafeKey_iff hsk
+      · obtain ⟨kt, rfl, hkt⟩ := keyOk_iff hsk
         simp only [layItem, layMapItem, keyOf, List.append_assoc, List.singleton_append]
-        exact safe_key_itemHead hkt _
+        exact key_itemHead (hr.key kt hkt) _
       · simp only [layItem, layMapItem, keyOf_complex' kk hck.1]
         exact ⟨by simp, by simp⟩
-  | .flowSeq _, hv, _, _ => by simp [inFrag] at hv
-  | .flowMap _, hv, _, _ => by simp [inFrag] at hv
-  | .commented _ _, hv, _, _ => by simp [inFrag] at hv
-  | .spaceAfter _, hv, _, _ => by simp [inFrag] at hv
-  | .litStr _, hv, _, _ => by simp [inFrag] at hv
-  | .foldStr _, hv, _, _ => by simp [inFrag] at hv
+  | .flowSeq _, hv, _, _ => by simp [inFragP] at hv
+  | .flowMap _, hv, _, _ => by simp [inFragP] at hv
+  | .commented _ _, hv, _, _ => by simp [inFragP] at hv
+  | .spaceAfter _, hv, _, _ => by simp [inFragP] at hv
+  | .litStr _, hv, _, _ => by simp [inFragP] at hv
+  | .foldStr _, hv, _, _ => by simp [inFragP] at hv
 
 theorem valHead_tok {t : List Char} (h : PlainTok t) : ValHead (' ' :: t) := Or.inr ⟨t, rfl, h.itemHead⟩
+theorem valHead_scalar {t : List Char} {p : PVal} (h : ScalarTok t p) : ValHead (' ' :: t) := Or.inr ⟨t, rfl, h.itemHead⟩
 
 theorem seqValOf_head (e : Bool) (items : List Line) : ValHead (seqValOf e items).1 := by
   cases e <;> simp only [seqValOf, if_true, if_false, Bool.false_eq_true]
@@ -384,19 +513,19 @@ theorem mapValOf_head (m : Nat) (lvb e : Bool) (entries : List Line) : ValHead (
   · exact Or.inr ⟨_, rfl, ⟨by decide, by decide⟩⟩
   · exact Or.inl rfl
 
-theorem valHead_layVal {w : Nat} (k : Nat) (cp im : Bool) : ∀ (v : SVal), inFrag w v = true → ∀ (m : Nat) (lvb : Bool), ValHead (layVal k cp im m lvb v).1
+theorem valHead_layVal {P : LeafPred} {T : Toks} (hr : ReadContract P T) (k : Nat) (cp im : Bool) : ∀ (v : SVal), inFragP P v = true → ∀ (m : Nat) (lvb : Bool), ValHead (layVal T k cp im m lvb v).1
   | .unit, _, m, lvb => by simpa [layVal] using valHead_tok plainTok_null
   | .none, _, m, lvb => by simpa [layVal] using valHead_tok plainTok_null
   | .bool b, _, m, lvb => by cases b <;> simpa [layVal] using (by first | exact valHead_tok plainTok_true | exact valHead_tok plainTok_false)
   | .int i, _, m, lvb => by simpa [layVal] using valHead_tok (intText_plainTok i)
   | .str t, hv, m, lvb => by
-    simp only [inFrag, Bool.and_eq_true] at hv
-    simpa [layVal] using valHead_tok (safe_plainTok hv.1)
+    simp only [inFragP] at hv
+    simpa [layVal] using valHead_scalar (hr.str t hv)
   | .unitVariant e n, hv, m, lvb => by
-    simp only [inFrag, Bool.and_eq_true] at hv
-    simpa [layVal] using valHead_tok (safe_plainTok hv.1)
-  | .some v, hv, m, lvb => by simp only [inFrag] at hv; simpa [layVal] using valHead_layVal k cp im v hv m lvb
-  | .newtypeStruct v, hv, m, lvb => by simp only [inFrag] at hv; simpa [layVal] using valHead_layVal k cp im v hv m lvb
+    simp only [inFragP] at hv
+    simpa [layVal] using valHead_scalar (hr.unit e n hv)
+  | .some v, hv, m, lvb => by simp only [inFragP] at hv; simpa [layVal] using valHead_layVal hr k cp im v hv m lvb
+  | .newtypeStruct v, hv, m, lvb => by simp only [inFragP] at hv; simpa [layVal] using valHead_layVal hr k cp im v hv m lvb
   | .newtypeVariant n v, _, m, lvb => by simp only [layVal, variantVal]; exact Or.inl rfl
   | .tupleVariant n xs, _, m, lvb => by simp only [layVal, variantVal]; exact Or.inl rfl
   | .structVariant n fs, _, m, lvb => by simp only [layVal, variantVal]; exact Or.inl rfl
@@ -404,12 +533,12 @@ theorem valHead_layVal {w : Nat} (k : Nat) (cp im : Bool) : ∀ (v : SVal), inFr
   | .tuple xs, _, m, lvb => by simp only [layVal]; exact seqValOf_head _ _
   | .tupleStruct xs, _, m, lvb => by simp only [layVal]; exact seqValOf_head _ _
   | .map known es, _, m, lvb => by simp only [layVal]; exact mapValOf_head _ _ _ _
-  | .flowSeq _, hv, _, _ => by simp [inFrag] at hv
-  | .flowMap _, hv, _, _ => by simp [inFrag] at hv
-  | .commented _ _, hv, _, _ => by simp [inFrag] at hv
-  | .spaceAfter _, hv, _, _ => by simp [inFrag] at hv
-  | .litStr _, hv, _, _ => by simp [inFrag] at hv
-  | .foldStr _, hv, _, _ => by simp [inFrag] at hv
+  | .flowSeq _, hv, _, _ => by simp [inFragP] at hv
+  | .flowMap _, hv, _, _ => by simp [inFragP] at hv
+  | .commented _ _, hv, _, _ => by simp [inFragP] at hv
+  | .spaceAfter _, hv, _, _ => by simp [inFragP] at hv
+  | .litStr _, hv, _, _ => by simp [inFragP] at hv
+  | .foldStr _, hv, _, _ => by simp [inFragP] at hv
 
 /-! ### the reader on the layout -/
 
@@ -417,16 +546,21 @@ theorem valueParse_block (fuel c klen : Nat) (ls : List Line) :
     valueParse fuel c klen [] ls = blockNode fuel (c + 1) (some c) false ls := by
   simp [valueParse, dropSpaces]
 
-theorem valueParse_leaf (fuel c klen : Nat) {t : List Char} (rest : List Line) (ht : PlainTok t)
-    (hd : DedLt (c + 1) rest) : valueParse (fuel + 1) c klen (' ' :: t) rest = some (resolvePlain t, rest) := by
-  obtain ⟨a, as, rfl, ha⟩ := ht.head
-  have h1 : a ≠ ' ' := fun e => by rw [e] at ha; exact absurd ha (by decide)
-  have h2 : a ≠ '#' := fun e => by rw [e] at ha; exact absurd ha (by decide)
+theorem valueParse_leaf (fuel c klen : Nat) {t : List Char} {p : PVal} (rest : List Line) (ht : ScalarTok t p)
+    (hd : DedLt (c + 1) rest) : valueParse (fuel + 1) c klen (' ' :: t) rest = some (p, rest) := by
+  have hne := ht.ne
+  have hhd := ht.head
+  obtain ⟨a, as, rfl⟩ : ∃ a as, t = a :: as := by
+    cases t with
+    | nil => exact absurd rfl hne
+    | cons a as => exact ⟨a, as, rfl⟩
+  have h1 : a ≠ ' ' := fun e => hhd.1 (by simp [e])
+  have h2 : a ≠ '#' := fun e => hhd.2.1 (by simp [e])
   have hds : dropSpaces (' ' :: a :: as) = a :: as := by simp [dropSpaces, h1]
   have hrc : restColumn (c + klen) (' ' :: a :: as) = c + klen + 1 := by simp [restColumn, h1]
   simp only [valueParse, hds, hrc, List.isEmpty_cons, List.head?_cons, Option.some.injEq, beq_iff_eq, h2, Bool.false_or,
     decide_false, Bool.false_eq_true, if_false]
-  exact blockNode_plain fuel (c + 1) none true _ rest ht (by omega) hd
+  exact ht.read fuel (c + 1) none true _ rest (by omega) hd
 
 theorem valueParse_emptySeq (fuel c klen : Nat) (rest : List Line) :
     valueParse (fuel + 1) c klen " []".toList rest = some (.seq [], rest) := by
@@ -457,55 +591,55 @@ def ReadsItem (r : Nat → Bool → List Char × List Line × Bool) (p : PVal) :
     blockNode fuel (c + 1) seqAt false (⟨c + 2, (r c lvb).1⟩ :: (r c lvb).2.1 ++ rest) = some (p, rest)
 
 /-- the items of a block sequence whose dashes are at column `c` -/
-def ReadsItems (k : Nat) (cp : Bool) (xs : List SVal) : Prop :=
+def ReadsItems (T : Toks) (k : Nat) (cp : Bool) (xs : List SVal) : Prop :=
   ∀ (fuel c : Nat) (lvb : Bool) (rest : List Line),
-    fuel ≥ 2 * mu (layItems k cp c lvb xs).1 + 1 → SeqEnd c rest →
-    blockSeq fuel c ((layItems k cp c lvb xs).1 ++ rest) = some (eraseList xs, rest)
+    fuel ≥ 2 * mu (layItems T k cp c lvb xs).1 + 1 → SeqEnd c rest →
+    blockSeq fuel c ((layItems T k cp c lvb xs).1 ++ rest) = some (eraseList xs, rest)
 
 /-- the entries of a block mapping whose keys are at column `c` -/
-def ReadsEntries (k : Nat) (cp : Bool) (es : List (SVal × SVal)) : Prop :=
+def ReadsEntries (T : Toks) (k : Nat) (cp : Bool) (es : List (SVal × SVal)) : Prop :=
   ∀ (fuel c : Nat) (lvb : Bool) (rest : List Line),
-    fuel ≥ 2 * mu (layEntries k cp c lvb es).1 + 1 → DedLt c rest →
-    blockMap fuel c ((layEntries k cp c lvb es).1 ++ rest) = some (eraseEntries es, rest)
+    fuel ≥ 2 * mu (layEntries T k cp c lvb es).1 + 1 → DedLt c rest →
+    blockMap fuel c ((layEntries T k cp c lvb es).1 ++ rest) = some (eraseEntries es, rest)
 
 /-! ### leaves -/
 
-theorem reads_leaf_val {tok : List Char} (ht : PlainTok tok) : ReadsVal (fun _ _ _ => (' ' :: tok, [], false)) (resolvePlain tok) := by
+theorem reads_leaf_val {tok : List Char} {p : PVal} (ht : ScalarTok tok p) : ReadsVal (fun _ _ _ => (' ' :: tok, [], false)) p := by
   intro fuel c im lvb klen rest hfuel hd
   obtain ⟨f', rfl⟩ : ∃ f', fuel = f' + 1 := ⟨fuel - 1, by omega⟩
   simpa using valueParse_leaf f' c klen rest ht hd.ded
 
-theorem reads_leaf_item {tok : List Char} (ht : PlainTok tok) : ReadsItem (fun _ _ => (tok, [], false)) (resolvePlain tok) := by
+theorem reads_leaf_item {tok : List Char} {p : PVal} (ht : ScalarTok tok p) : ReadsItem (fun _ _ => (tok, [], false)) p := by
   intro fuel c seqAt lvb rest hfuel hd
   obtain ⟨f', rfl⟩ : ∃ f', fuel = f' + 1 := ⟨fuel - 1, by omega⟩
-  simpa using blockNode_plain f' (c + 1) seqAt false (c + 2) rest ht (by omega) hd
+  simpa using ht.read f' (c + 1) seqAt false (c + 2) rest (by omega) hd
 
 /-! ### sequences -/
 
 /-- a sequence right after `key:` -/
-theorem reads_seqVal {w k : Nat} {cp : Bool} (hk : k ≥ 1) {xs : List SVal} (hv : inFragList w xs = true) (hitems : ReadsItems k cp xs) :
-    ReadsVal (fun c im _ => seqValOf xs.isEmpty (layItems k cp (seqCol k cp im c) false xs).1) (.seq (eraseList xs)) := by
+theorem reads_seqVal {P : LeafPred} {T : Toks} {k : Nat} {cp : Bool} (hr : ReadContract P T) (hk : k ≥ 1) {xs : List SVal} (hv : inFragListP P xs = true) (hitems : ReadsItems T k cp xs) :
+    ReadsVal (fun c im _ => seqValOf xs.isEmpty (layItems T k cp (seqCol k cp im c) false xs).1) (.seq (eraseList xs)) := by
   intro fuel c im lvb klen rest hfuel hd
   cases xs with
   | nil =>
     obtain ⟨f', rfl⟩ : ∃ f', fuel = f' + 1 := ⟨fuel - 1, by omega⟩
     simpa [seqValOf, eraseList] using valueParse_emptySeq f' c klen rest
   | cons x xs' =>
-    have hx : inFrag w x = true := by simp only [inFragList, Bool.and_eq_true] at hv; exact hv.1
+    have hx : inFragP P x = true := by simp only [inFragListP, Bool.and_eq_true] at hv; exact hv.1
     simp only [seqValOf, List.isEmpty_cons, Bool.false_eq_true, if_false, valueParse_block] at hfuel ⊢
     obtain ⟨f', rfl⟩ : ∃ f', fuel = f' + 1 := ⟨fuel - 1, by omega⟩
     by_cases hcp : (cp && im) = true
     · -- `compact_list_indent`: the dashes at the column of the key
       have hsc : seqCol k cp im c = c := by simp [seqCol, hcp]
       rw [hsc] at hfuel ⊢
-      have hh := itemHead_layItem k cp x hx c false
+      have hh := itemHead_layItem hr k cp x hx c false
       have hi := hitems f' c false rest (by simp only [List.length_nil] at hfuel; omega) hd
       simp only [layItems, List.cons_append, List.nil_append, List.append_assoc] at hi ⊢
       rw [blockNode_dash_at f' c _ hh, hi]
       rfl
     · have hsc : seqCol k cp im c = c + k := by simp [seqCol, hcp]
       rw [hsc] at hfuel ⊢
-      have hh := itemHead_layItem k cp x hx (c + k) false
+      have hh := itemHead_layItem hr k cp x hx (c + k) false
       have hi := hitems f' (c + k) false rest (by simp only [List.length_nil] at hfuel; omega)
         (hd.mono (by omega))
       simp only [layItems, List.cons_append, List.nil_append, List.append_assoc] at hi ⊢
@@ -513,16 +647,16 @@ theorem reads_seqVal {w k : Nat} {cp : Bool} (hk : k ≥ 1) {xs : List SVal} (hv
       rfl
 
 /-- a sequence right after `- ` -/
-theorem reads_seqItem {w k : Nat} {cp : Bool} {xs : List SVal} (hv : inFragList w xs = true) (hitems : ReadsItems k cp xs) :
-    ReadsItem (fun c lvb => laySeqItem k cp c lvb xs) (.seq (eraseList xs)) := by
+theorem reads_seqItem {P : LeafPred} {T : Toks} {k : Nat} {cp : Bool} (hr : ReadContract P T) {xs : List SVal} (hv : inFragListP P xs = true) (hitems : ReadsItems T k cp xs) :
+    ReadsItem (fun c lvb => laySeqItem T k cp c lvb xs) (.seq (eraseList xs)) := by
   intro fuel c seqAt lvb rest hfuel hd
   cases xs with
   | nil =>
     obtain ⟨f', rfl⟩ : ∃ f', fuel = f' + 1 := ⟨fuel - 1, by omega⟩
     simpa [laySeqItem, eraseList] using blockNode_emptySeq f' (c + 1) seqAt false (c + 2) rest (by omega)
   | cons x xs' =>
-    have hx : inFrag w x = true := by simp only [inFragList, Bool.and_eq_true] at hv; exact hv.1
-    have hh := itemHead_layItem k cp x hx (c + 2) lvb
+    have hx : inFragP P x = true := by simp only [inFragListP, Bool.and_eq_true] at hv; exact hv.1
+    have hh := itemHead_layItem hr k cp x hx (c + 2) lvb
     simp only [laySeqItem] at hfuel ⊢
     obtain ⟨f', rfl⟩ : ∃ f', fuel = f' + 1 := ⟨fuel - 1, by omega⟩
     have hi := hitems f' (c + 2) lvb rest
@@ -535,25 +669,25 @@ theorem reads_seqItem {w k : Nat} {cp : Bool} {xs : List SVal} (hv : inFragList 
     rw [hi]
     rfl
 
-theorem reads_items_nil {k : Nat} {cp : Bool} : ReadsItems k cp [] := by
+theorem reads_items_nil {T : Toks} {k : Nat} {cp : Bool} : ReadsItems T k cp [] := by
   intro fuel c lvb rest hfuel hd
   obtain ⟨f', rfl⟩ : ∃ f', fuel = f' + 1 := ⟨fuel - 1, by omega⟩
   simpa [layItems, eraseList] using blockSeq_end' f' c hd
 
-theorem reads_items_cons {w k : Nat} {cp : Bool} {x : SVal} {xs : List SVal} (hx : inFrag w x = true)
-    (h1 : ReadsItem (fun c lvb => layItem k cp c lvb x) (erase x)) (h2 : ReadsItems k cp xs) : ReadsItems k cp (x :: xs) := by
+theorem reads_items_cons {P : LeafPred} {T : Toks} {k : Nat} {cp : Bool} (hr : ReadContract P T) {x : SVal} {xs : List SVal} (hx : inFragP P x = true)
+    (h1 : ReadsItem (fun c lvb => layItem T k cp c lvb x) (erase x)) (h2 : ReadsItems T k cp xs) : ReadsItems T k cp (x :: xs) := by
   intro fuel c lvb rest hfuel hd
-  have hh := itemHead_layItem k cp x hx c lvb
+  have hh := itemHead_layItem hr k cp x hx c lvb
   simp only [layItems, mu, mu_append, List.length_append, List.length_cons, List.length_nil] at hfuel
   obtain ⟨f', rfl⟩ : ∃ f', fuel = f' + 1 := ⟨fuel - 1, by omega⟩
-  have hrest : DedLt (c + 1) ((layItems k cp c (layItem k cp c lvb x).2.2 xs).1 ++ rest) := by
+  have hrest : DedLt (c + 1) ((layItems T k cp c (layItem T k cp c lvb x).2.2 xs).1 ++ rest) := by
     cases xs with
     | nil => simpa [layItems] using hd.ded
     | cons y ys =>
       simp only [layItems, List.cons_append]
       exact DedLt.cons _ _ (by simp) (notSkippable_of_head (by decide))
-  have h1 := h1 f' c none lvb ((layItems k cp c (layItem k cp c lvb x).2.2 xs).1 ++ rest) (by dsimp only; omega) hrest
-  have h2 := h2 f' c (layItem k cp c lvb x).2.2 rest (by omega) hd
+  have h1 := h1 f' c none lvb ((layItems T k cp c (layItem T k cp c lvb x).2.2 xs).1 ++ rest) (by dsimp only; omega) hrest
+  have h2 := h2 f' c (layItem T k cp c lvb x).2.2 rest (by omega) hd
   simp only [layItems, List.cons_append, List.append_assoc, List.singleton_append, List.nil_append, eraseList]
   simp only [List.cons_append, List.append_assoc] at h1
   rw [blockSeq_cons f' c _ hh]
@@ -564,7 +698,7 @@ theorem reads_items_cons {w k : Nat} {cp : Bool} {x : SVal} {xs : List SVal} (hx
 
 /-- the first line of a block mapping: `key:…` with a safe key, or `? …` -/
 inductive MapStart : List Char → Prop
-  | key {kt h : List Char} (hk : isSafeStr kt = true) (hh : ValHead h) : MapStart (kt ++ ':' :: h)
+  | key {K kt h : List Char} (hk : KeyTok K kt) (hh : ValHead h) : MapStart (K ++ ':' :: h)
   | question {h : List Char} (hh : ItemHead h) : MapStart ('?' :: ' ' :: h)
 
 theorem MapStart.notSkippable {t : List Char} (h : MapStart t) (i : Nat) : (⟨i, t⟩ : Line).isSkippable = false := by
@@ -575,7 +709,7 @@ theorem MapStart.notSkippable {t : List Char} (h : MapStart t) (i : Nat) : (⟨i
 theorem MapStart.notDash {t : List Char} (h : MapStart t) : ∀ it g, classify t ≠ .dash it g := by
   intro it g
   cases h with
-  | key hk hh => rw [classify_key hk]; exact fun e => Head.noConfusion e
+  | key hk hh => rw [hk.cls]; exact fun e => Head.noConfusion e
   | question hh => rw [classify_question hh]; exact fun e => Head.noConfusion e
 
 theorem blockNode_mapStart (fuel n : Nat) (seqAt : Option Nat) (i : Nat) {t : List Char} (ls : List Line)
@@ -589,36 +723,36 @@ theorem blockNode_mapStart (fuel n : Nat) (seqAt : Option Nat) (i : Nat) {t : Li
   | question hh => exact blockNode_question fuel n seqAt i ls hh hi
 
 /-- the lines of a non-empty block mapping of the fragment start with a mapping line at its column -/
-theorem layEntries_start {w : Nat} (k : Nat) (cp : Bool) (c : Nat) (lvb : Bool) {e : SVal × SVal} {es : List (SVal × SVal)}
-    (hv : inFragEntries w (e :: es) = true) :
-    ∃ t ls, (layEntries k cp c lvb (e :: es)).1 = ⟨c, t⟩ :: ls ∧ MapStart t := by
+theorem layEntries_start {P : LeafPred} {T : Toks} (hr : ReadContract P T) (k : Nat) (cp : Bool) (c : Nat) (lvb : Bool) {e : SVal × SVal} {es : List (SVal × SVal)}
+    (hv : inFragEntriesP P (e :: es) = true) :
+    ∃ t ls, (layEntries T k cp c lvb (e :: es)).1 = ⟨c, t⟩ :: ls ∧ MapStart t := by
   obtain ⟨kk, v⟩ := e
-  simp only [inFragEntries, Bool.and_eq_true, Bool.or_eq_true] at hv
+  simp only [inFragEntriesP, Bool.and_eq_true, Bool.or_eq_true] at hv
   rcases hv.1.1 with hsk | hck
-  · obtain ⟨kt, rfl, hkt⟩ := isSafeKey_iff hsk
-    refine ⟨kt ++ ':' :: (layVal k cp true c lvb v).1,
-      (layVal k cp true c lvb v).2.1 ++ (layEntries k cp c (layVal k cp true c lvb v).2.2 es).1, ?_,
-      MapStart.key hkt (valHead_layVal k cp true v hv.1.2 c lvb)⟩
+  · obtain ⟨kt, rfl, hkt⟩ := keyOk_iff hsk
+    refine ⟨T.key kt ++ ':' :: (layVal T k cp true c lvb v).1,
+      (layVal T k cp true c lvb v).2.1 ++ (layEntries T k cp c (layVal T k cp true c lvb v).2.2 es).1, ?_,
+      MapStart.key (hr.key kt hkt) (valHead_layVal hr k cp true v hv.1.2 c lvb)⟩
     simp [layEntries, keyOf]
-  · refine ⟨'?' :: ' ' :: (layItem k cp c lvb kk).1,
-      (layItem k cp c lvb kk).2.1 ++ ⟨c, [':', ' '] ++ (layItem k cp c false v).1⟩ :: (layItem k cp c false v).2.1 ++
-        (layEntries k cp c (layItem k cp c false v).2.2 es).1, ?_, MapStart.question (itemHead_layItem k cp kk hck.2 c lvb)⟩
+  · refine ⟨'?' :: ' ' :: (layItem T k cp c lvb kk).1,
+      (layItem T k cp c lvb kk).2.1 ++ ⟨c, [':', ' '] ++ (layItem T k cp c false v).1⟩ :: (layItem T k cp c false v).2.1 ++
+        (layEntries T k cp c (layItem T k cp c false v).2.2 es).1, ?_, MapStart.question (itemHead_layItem hr k cp kk hck.2 c lvb)⟩
     simp [layEntries, keyOf_complex' kk hck.1]
 
 /-- what follows a value inside a mapping at column `c`: the next entries, then `rest` -/
-theorem entries_rest_end {w : Nat} (k : Nat) (cp : Bool) (c : Nat) (lvb : Bool) {es : List (SVal × SVal)} (hes : inFragEntries w es = true)
-    {rest : List Line} (hd : DedLt c rest) : SeqEnd c ((layEntries k cp c lvb es).1 ++ rest) := by
+theorem entries_rest_end {P : LeafPred} {T : Toks} (hr : ReadContract P T) (k : Nat) (cp : Bool) (c : Nat) (lvb : Bool) {es : List (SVal × SVal)} (hes : inFragEntriesP P es = true)
+    {rest : List Line} (hd : DedLt c rest) : SeqEnd c ((layEntries T k cp c lvb es).1 ++ rest) := by
   cases es with
   | nil => simpa [layEntries] using hd.seqEnd
   | cons p ps =>
-    obtain ⟨t, ls, he, ht⟩ := layEntries_start k cp c lvb hes
+    obtain ⟨t, ls, he, ht⟩ := layEntries_start hr k cp c lvb hes
     rw [he]
     exact Or.inr ⟨_, _, rfl, ht.notSkippable c, Or.inr ⟨rfl, ht.notDash⟩⟩
 
 /-- a mapping right after `key:` -/
-theorem reads_mapVal {w k : Nat} {cp : Bool} (hk : k ≥ 1) {es : List (SVal × SVal)} (hv : inFragEntries w es = true)
-    (hdup : hasDupKey (eraseEntries es) = false) (hentries : ReadsEntries k cp es) :
-    ReadsVal (fun c _ lvb => mapValOf (c + k) lvb es.isEmpty (layEntries k cp (c + k) false es).1) (.map (eraseEntries es)) := by
+theorem reads_mapVal {P : LeafPred} {T : Toks} {k : Nat} {cp : Bool} (hr : ReadContract P T) (hk : k ≥ 1) {es : List (SVal × SVal)} (hv : inFragEntriesP P es = true)
+    (hdup : hasDupKey (eraseEntries es) = false) (hentries : ReadsEntries T k cp es) :
+    ReadsVal (fun c _ lvb => mapValOf (c + k) lvb es.isEmpty (layEntries T k cp (c + k) false es).1) (.map (eraseEntries es)) := by
   intro fuel c im lvb klen rest hfuel hd
   cases es with
   | nil =>
@@ -628,7 +762,7 @@ theorem reads_mapVal {w k : Nat} {cp : Bool} (hk : k ≥ 1) {es : List (SVal × 
     · simp only [mapValOf, List.isEmpty_nil, if_true, eraseEntries, valueParse_block, List.cons_append, List.nil_append]
       exact blockNode_emptyMap f' (c + 1) _ false (c + k) rest (by omega)
   | cons e es' =>
-    obtain ⟨t, ls, he, ht⟩ := layEntries_start k cp (c + k) false (e := e) (es := es') hv
+    obtain ⟨t, ls, he, ht⟩ := layEntries_start hr k cp (c + k) false (e := e) (es := es') hv
     simp only [mapValOf, List.isEmpty_cons, Bool.false_eq_true, if_false, valueParse_block] at hfuel ⊢
     obtain ⟨f', rfl⟩ : ∃ f', fuel = f' + 1 := ⟨fuel - 1, by omega⟩
     have hi := hentries f' (c + k) false rest
@@ -639,9 +773,9 @@ theorem reads_mapVal {w k : Nat} {cp : Bool} (hk : k ≥ 1) {es : List (SVal × 
     simp [hdup]
 
 /-- a mapping right after `- ` -/
-theorem reads_mapItem {w k : Nat} {cp : Bool} {es : List (SVal × SVal)} (hv : inFragEntries w es = true)
-    (hdup : hasDupKey (eraseEntries es) = false) (hentries : ReadsEntries k cp es) :
-    ReadsItem (fun c lvb => layMapItem k cp c lvb es) (.map (eraseEntries es)) := by
+theorem reads_mapItem {P : LeafPred} {T : Toks} {k : Nat} {cp : Bool} (hr : ReadContract P T) {es : List (SVal × SVal)} (hv : inFragEntriesP P es = true)
+    (hdup : hasDupKey (eraseEntries es) = false) (hentries : ReadsEntries T k cp es) :
+    ReadsItem (fun c lvb => layMapItem T k cp c lvb es) (.map (eraseEntries es)) := by
   intro fuel c seqAt lvb rest hfuel hd
   cases es with
   | nil =>
@@ -649,13 +783,13 @@ theorem reads_mapItem {w k : Nat} {cp : Bool} {es : List (SVal × SVal)} (hv : i
     simpa [layMapItem, eraseEntries] using blockNode_emptyMap f' (c + 1) seqAt false (c + 2) rest (by omega)
   | cons e es' =>
     -- the item text + lines are the entries at column `c + 2`, whose first line is the item text
-    have hlay : ∀ (lvb : Bool), (layEntries k cp (c + 2) false (e :: es')).1 =
-        ⟨c + 2, (layMapItem k cp c lvb (e :: es')).1⟩ :: (layMapItem k cp c lvb (e :: es')).2.1 := by
+    have hlay : ∀ (lvb : Bool), (layEntries T k cp (c + 2) false (e :: es')).1 =
+        ⟨c + 2, (layMapItem T k cp c lvb (e :: es')).1⟩ :: (layMapItem T k cp c lvb (e :: es')).2.1 := by
       intro lvb
       obtain ⟨kk, v⟩ := e
       cases hko : keyOf kk <;> simp [layEntries, layMapItem, hko]
-    obtain ⟨t, ls, he, ht⟩ := layEntries_start k cp (c + 2) false (e := e) (es := es') hv
-    have ht' : MapStart (layMapItem k cp c lvb (e :: es')).1 := by
+    obtain ⟨t, ls, he, ht⟩ := layEntries_start hr k cp (c + 2) false (e := e) (es := es') hv
+    have ht' : MapStart (layMapItem T k cp c lvb (e :: es')).1 := by
       have := hlay lvb; rw [he] at this
       simp only [List.cons.injEq, Line.mk.injEq, true_and] at this
       rw [← this.1]; exact ht
@@ -667,46 +801,46 @@ theorem reads_mapItem {w k : Nat} {cp : Bool} {es : List (SVal × SVal)} (hv : i
     rw [blockNode_mapStart f' (c + 1) seqAt (c + 2) _ ht' (by omega), hi]
     simp [hdup]
 
-theorem reads_entries_nil {k : Nat} {cp : Bool} : ReadsEntries k cp [] := by
+theorem reads_entries_nil {T : Toks} {k : Nat} {cp : Bool} : ReadsEntries T k cp [] := by
   intro fuel c lvb rest hfuel hd
   obtain ⟨f', rfl⟩ : ∃ f', fuel = f' + 1 := ⟨fuel - 1, by omega⟩
   simpa [layEntries, eraseEntries] using blockMap_end f' c hd
 
-theorem reads_entries_cons {w k : Nat} {cp : Bool} {kt : List Char} {v : SVal} {es : List (SVal × SVal)}
-    (hk : isSafeStr kt = true) (hvv : inFrag w v = true) (hes : inFragEntries w es = true)
-    (h1 : ReadsVal (fun c im lvb => layVal k cp im c lvb v) (erase v)) (h2 : ReadsEntries k cp es) :
-    ReadsEntries k cp ((.str kt, v) :: es) := by
+theorem reads_entries_cons {P : LeafPred} {T : Toks} {k : Nat} {cp : Bool} (hr : ReadContract P T) {kt : List Char} {v : SVal} {es : List (SVal × SVal)}
+    (hk : P.key kt = true) (hvv : inFragP P v = true) (hes : inFragEntriesP P es = true)
+    (h1 : ReadsVal (fun c im lvb => layVal T k cp im c lvb v) (erase v)) (h2 : ReadsEntries T k cp es) :
+    ReadsEntries T k cp ((.str kt, v) :: es) := by
   intro fuel c lvb rest hfuel hd
-  have hh := valHead_layVal k cp true v hvv c lvb
+  have hh := valHead_layVal hr k cp true v hvv c lvb
   simp only [layEntries, keyOf, mu, mu_append, List.length_append, List.length_cons, List.length_nil] at hfuel
   obtain ⟨f', rfl⟩ : ∃ f', fuel = f' + 1 := ⟨fuel - 1, by omega⟩
-  have hrest := entries_rest_end k cp c (layVal k cp true c lvb v).2.2 hes hd
-  have h1 := h1 f' c true lvb (kt.length + 1) ((layEntries k cp c (layVal k cp true c lvb v).2.2 es).1 ++ rest) (by dsimp only; omega) hrest
-  have h2 := h2 f' c (layVal k cp true c lvb v).2.2 rest (by omega) hd
+  have hrest := entries_rest_end hr k cp c (layVal T k cp true c lvb v).2.2 hes hd
+  have h1 := h1 f' c true lvb ((T.key kt).length + 1) ((layEntries T k cp c (layVal T k cp true c lvb v).2.2 es).1 ++ rest) (by dsimp only; omega) hrest
+  have h2 := h2 f' c (layVal T k cp true c lvb v).2.2 rest (by omega) hd
   simp only [layEntries, keyOf, List.cons_append, List.append_assoc, List.singleton_append, List.nil_append, eraseEntries, erase]
   try simp only [List.append_assoc] at h1
-  rw [blockMap_cons f' c _ hk hh]
+  rw [blockMap_cons f' c _ (hr.key kt hk) hh]
   simp only [h1, h2]
   rfl
 
 /-- an entry with a composite key: `? key` / `: value` -/
-theorem reads_entries_cons_complex {w k : Nat} {cp : Bool} {key v : SVal} {es : List (SVal × SVal)}
-    (hkc : isComplexKey key = true) (hkk : inFrag w key = true) (hvv : inFrag w v = true) (hes : inFragEntries w es = true)
-    (h0 : ReadsItem (fun c lvb => layItem k cp c lvb key) (erase key))
-    (h1 : ReadsItem (fun c lvb => layItem k cp c lvb v) (erase v)) (h2 : ReadsEntries k cp es) :
-    ReadsEntries k cp ((key, v) :: es) := by
+theorem reads_entries_cons_complex {P : LeafPred} {T : Toks} {k : Nat} {cp : Bool} (hr : ReadContract P T) {key v : SVal} {es : List (SVal × SVal)}
+    (hkc : isComplexKey key = true) (hkk : inFragP P key = true) (hvv : inFragP P v = true) (hes : inFragEntriesP P es = true)
+    (h0 : ReadsItem (fun c lvb => layItem T k cp c lvb key) (erase key))
+    (h1 : ReadsItem (fun c lvb => layItem T k cp c lvb v) (erase v)) (h2 : ReadsEntries T k cp es) :
+    ReadsEntries T k cp ((key, v) :: es) := by
   intro fuel c lvb rest hfuel hd
-  have hhk := itemHead_layItem k cp key hkk c lvb
-  have hhv := itemHead_layItem k cp v hvv c false
+  have hhk := itemHead_layItem hr k cp key hkk c lvb
+  have hhv := itemHead_layItem hr k cp v hvv c false
   simp only [layEntries, keyOf_complex' key hkc, mu, mu_append, List.length_append, List.length_cons, List.length_nil] at hfuel
   obtain ⟨f', rfl⟩ : ∃ f', fuel = f' + 1 := ⟨fuel - 1, by omega⟩
-  have hrest := (entries_rest_end k cp c (layItem k cp c false v).2.2 hes hd).ded
+  have hrest := (entries_rest_end hr k cp c (layItem T k cp c false v).2.2 hes hd).ded
   -- the key: everything up to the `: ` line
   have hk0 := h0 f' c none lvb
-    (⟨c, ':' :: ' ' :: (layItem k cp c false v).1⟩ :: (layItem k cp c false v).2.1 ++ (layEntries k cp c (layItem k cp c false v).2.2 es).1 ++ rest)
+    (⟨c, ':' :: ' ' :: (layItem T k cp c false v).1⟩ :: (layItem T k cp c false v).2.1 ++ (layEntries T k cp c (layItem T k cp c false v).2.2 es).1 ++ rest)
     (by dsimp only; omega) (DedLt.cons _ _ (by simp) (notSkippable_of_head (by decide)))
-  have hv0 := h1 f' c (some c) false ((layEntries k cp c (layItem k cp c false v).2.2 es).1 ++ rest) (by dsimp only; omega) hrest
-  have h2 := h2 f' c (layItem k cp c false v).2.2 rest (by omega) hd
+  have hv0 := h1 f' c (some c) false ((layEntries T k cp c (layItem T k cp c false v).2.2 es).1 ++ rest) (by dsimp only; omega) hrest
+  have h2 := h2 f' c (layItem T k cp c false v).2.2 rest (by omega) hd
   simp only [layEntries, keyOf_complex' key hkc, List.cons_append, List.append_assoc, List.singleton_append, List.nil_append,
     eraseEntries]
   simp only [List.cons_append, List.append_assoc] at hk0 hv0
@@ -717,31 +851,31 @@ theorem reads_entries_cons_complex {w k : Nat} {cp : Bool} {key v : SVal} {es : 
 /-! ### variants -/
 
 /-- `Variant: payload` right after `key:` (the variant key `k` columns under the parent keys) -/
-theorem reads_variantVal {k : Nat} (hk : k ≥ 1) {n : List Char} (hn : isSafeStr n = true) {r : Nat → Bool → Bool → List Char × List Line × Bool}
+theorem reads_variantVal {k : Nat} (hk : k ≥ 1) {N n : List Char} (hn : KeyTok N n) {r : Nat → Bool → Bool → List Char × List Line × Bool}
     {p : PVal} (hh : ∀ c im lvb, ValHead (r c im lvb).1) (hr : ReadsVal r p) :
-    ReadsVal (fun c _ lvb => variantVal (c + k) n (r (c + k) true lvb)) (.map [(.str n, p)]) := by
+    ReadsVal (fun c _ lvb => variantVal (c + k) N (r (c + k) true lvb)) (.map [(.str n, p)]) := by
   intro fuel c im lvb klen rest hfuel hd
   have hh' := hh (c + k) true lvb
   simp only [variantVal, valueParse_block, List.cons_append, mu, List.length_nil, List.length_append,
     List.length_cons] at hfuel ⊢
   obtain ⟨f', rfl⟩ : ∃ f', fuel = f' + 2 := ⟨fuel - 2, by omega⟩
-  have ih := hr f' (c + k) true lvb (n.length + 1) rest (by omega) (hd.mono (by omega))
-  rw [show n ++ [':'] ++ (r (c + k) true lvb).1 = n ++ ':' :: (r (c + k) true lvb).1 by simp]
+  have ih := hr f' (c + k) true lvb (N.length + 1) rest (by omega) (hd.mono (by omega))
+  rw [show N ++ [':'] ++ (r (c + k) true lvb).1 = N ++ ':' :: (r (c + k) true lvb).1 by simp]
   rw [blockNode_key (f' + 1) (c + 1) _ (c + k) _ hn hh' (by omega),
     blockMap_cons f' (c + k) _ hn hh', ih]
   obtain ⟨f'', rfl⟩ : ∃ f'', f' = f'' + 1 := ⟨f' - 1, by omega⟩
   simp [blockMap_end f'' (c + k) (hd.ded.mono (by omega)), hasDupKey]
 
 /-- `Variant: payload` right after `- ` (the variant key two columns after the dash) -/
-theorem reads_variantItem {n : List Char} (hn : isSafeStr n = true) {r : Nat → Bool → Bool → List Char × List Line × Bool}
+theorem reads_variantItem {N n : List Char} (hn : KeyTok N n) {r : Nat → Bool → Bool → List Char × List Line × Bool}
     {p : PVal} (hh : ∀ c im lvb, ValHead (r c im lvb).1) (hr : ReadsVal r p) :
-    ReadsItem (fun c lvb => variantItem n (r (c + 2) true lvb)) (.map [(.str n, p)]) := by
+    ReadsItem (fun c lvb => variantItem N (r (c + 2) true lvb)) (.map [(.str n, p)]) := by
   intro fuel c seqAt lvb rest hfuel hd
   have hh' := hh (c + 2) true lvb
   simp only [variantItem, List.length_append, List.length_cons, List.length_nil, List.cons_append] at hfuel ⊢
   obtain ⟨f', rfl⟩ : ∃ f', fuel = f' + 2 := ⟨fuel - 2, by omega⟩
-  have ih := hr f' (c + 2) true lvb (n.length + 1) rest (by omega) (hd.mono (by omega)).seqEnd
-  rw [show n ++ [':'] ++ (r (c + 2) true lvb).1 = n ++ ':' :: (r (c + 2) true lvb).1 by simp]
+  have ih := hr f' (c + 2) true lvb (N.length + 1) rest (by omega) (hd.mono (by omega)).seqEnd
+  rw [show N ++ [':'] ++ (r (c + 2) true lvb).1 = N ++ ':' :: (r (c + 2) true lvb).1 by simp]
   rw [show f' + 2 = f' + 1 + 1 from rfl, blockNode_key (f' + 1) (c + 1) seqAt (c + 2) _ hn hh' (by omega),
     blockMap_cons f' (c + 2) _ hn hh', ih]
   obtain ⟨f'', rfl⟩ : ∃ f'', f' = f'' + 1 := ⟨f' - 1, by omega⟩
@@ -751,125 +885,119 @@ theorem reads_variantItem {n : List Char} (hn : isSafeStr n = true) {r : Nat →
 
 mutual
 /-- the value of a key: text after `key:` plus the following lines -/
-theorem read_val {w k : Nat} {cp : Bool} (hk : k ≥ 1) : ∀ (v : SVal), inFrag w v = true → ReadsVal (fun c im lvb => layVal k cp im c lvb v) (erase v)
-  | .unit, _ => by simpa [layVal, erase, resolvePlain_null] using reads_leaf_val plainTok_null
-  | .none, _ => by simpa [layVal, erase, resolvePlain_null] using reads_leaf_val plainTok_null
-  | .bool b, _ => by
-    cases b
-    · simpa [layVal, erase, resolvePlain_false] using reads_leaf_val plainTok_false
-    · simpa [layVal, erase, resolvePlain_true] using reads_leaf_val plainTok_true
-  | .int i, _ => by simpa [layVal, erase, resolvePlain_int] using reads_leaf_val (intText_plainTok i)
+theorem read_val {P : LeafPred} {T : Toks} {k : Nat} {cp : Bool} (hr : ReadContract P T) (hk : k ≥ 1) : ∀ (v : SVal), inFragP P v = true → ReadsVal (fun c im lvb => layVal T k cp im c lvb v) (erase v)
+  | .unit, _ => by simpa [layVal, erase] using reads_leaf_val scalarTok_null
+  | .none, _ => by simpa [layVal, erase] using reads_leaf_val scalarTok_null
+  | .bool b, _ => by simpa [layVal, erase] using reads_leaf_val (scalarTok_bool b)
+  | .int i, _ => by simpa [layVal, erase] using reads_leaf_val (scalarTok_int i)
   | .str t, hv => by
-    simp only [inFrag, Bool.and_eq_true] at hv
-    simpa [layVal, erase, resolvePlain_safe hv.1] using reads_leaf_val (safe_plainTok hv.1)
+    simp only [inFragP] at hv
+    simpa [layVal, erase] using reads_leaf_val (hr.str t hv)
   | .unitVariant e n, hv => by
-    simp only [inFrag, Bool.and_eq_true] at hv
-    simpa [layVal, erase, resolvePlain_safe hv.1] using reads_leaf_val (safe_plainTok hv.1)
+    simp only [inFragP] at hv
+    simpa [layVal, erase] using reads_leaf_val (hr.unit e n hv)
   | .some v, hv => by
-    simp only [inFrag] at hv
-    simpa [layVal, erase] using read_val hk v hv
+    simp only [inFragP] at hv
+    simpa [layVal, erase] using read_val hr hk v hv
   | .newtypeStruct v, hv => by
-    simp only [inFrag] at hv
-    simpa [layVal, erase] using read_val hk v hv
+    simp only [inFragP] at hv
+    simpa [layVal, erase] using read_val hr hk v hv
   | .seq xs, hv => by
-    simp only [inFrag] at hv
-    simpa [layVal, erase] using reads_seqVal hk hv (read_items hk xs hv)
+    simp only [inFragP] at hv
+    simpa [layVal, erase] using reads_seqVal hr hk hv (read_items hr hk xs hv)
   | .tuple xs, hv => by
-    simp only [inFrag] at hv
-    simpa [layVal, erase] using reads_seqVal hk hv (read_items hk xs hv)
+    simp only [inFragP] at hv
+    simpa [layVal, erase] using reads_seqVal hr hk hv (read_items hr hk xs hv)
   | .tupleStruct xs, hv => by
-    simp only [inFrag] at hv
-    simpa [layVal, erase] using reads_seqVal hk hv (read_items hk xs hv)
+    simp only [inFragP] at hv
+    simpa [layVal, erase] using reads_seqVal hr hk hv (read_items hr hk xs hv)
   | .map known es, hv => by
-    simp only [inFrag, Bool.and_eq_true, decide_eq_true_eq] at hv
-    simpa [layVal, erase] using reads_mapVal hk hv.1 (by simpa using hv.2) (read_entries hk es hv.1)
+    simp only [inFragP, Bool.and_eq_true, decide_eq_true_eq] at hv
+    simpa [layVal, erase] using reads_mapVal hr hk hv.1 (by simpa using hv.2) (read_entries hr hk es hv.1)
   | .newtypeVariant n v, hv => by
-    simp only [inFrag, Bool.and_eq_true] at hv
-    simpa [layVal, erase] using reads_variantVal hk hv.1 (r := fun c im lvb => layVal k cp im c lvb v)
-      (fun c im lvb => valHead_layVal k cp im v hv.2 c lvb) (read_val hk v hv.2)
+    simp only [inFragP, Bool.and_eq_true] at hv
+    simpa [layVal, erase] using reads_variantVal hk (hr.name n hv.1) (r := fun c im lvb => layVal T k cp im c lvb v)
+      (fun c im lvb => valHead_layVal hr k cp im v hv.2 c lvb) (read_val hr hk v hv.2)
   | .tupleVariant n xs, hv => by
-    simp only [inFrag, Bool.and_eq_true] at hv
-    simpa [layVal, erase] using reads_variantVal hk hv.1 (r := fun c im _ => seqValOf xs.isEmpty (layItems k cp (seqCol k cp im c) false xs).1)
-      (fun _ _ _ => seqValOf_head _ _) (reads_seqVal hk hv.2 (read_items hk xs hv.2))
+    simp only [inFragP, Bool.and_eq_true] at hv
+    simpa [layVal, erase] using reads_variantVal hk (hr.name n hv.1) (r := fun c im _ => seqValOf xs.isEmpty (layItems T k cp (seqCol k cp im c) false xs).1)
+      (fun _ _ _ => seqValOf_head _ _) (reads_seqVal hr hk hv.2 (read_items hr hk xs hv.2))
   | .structVariant n fs, hv => by
-    simp only [inFrag, Bool.and_eq_true, decide_eq_true_eq] at hv
-    simpa [layVal, erase] using reads_variantVal hk hv.1
-      (r := fun c _ lvb => mapValOf (c + k) lvb fs.isEmpty (layEntries k cp (c + k) false fs).1)
-      (fun _ _ _ => mapValOf_head _ _ _ _) (reads_mapVal hk hv.2.1 (by simpa using hv.2.2) (read_entries hk fs hv.2.1))
-  | .flowSeq _, hv => by simp [inFrag] at hv
-  | .flowMap _, hv => by simp [inFrag] at hv
-  | .commented _ _, hv => by simp [inFrag] at hv
-  | .spaceAfter _, hv => by simp [inFrag] at hv
-  | .litStr _, hv => by simp [inFrag] at hv
-  | .foldStr _, hv => by simp [inFrag] at hv
+    simp only [inFragP, Bool.and_eq_true, decide_eq_true_eq] at hv
+    simpa [layVal, erase] using reads_variantVal hk (hr.name n hv.1)
+      (r := fun c _ lvb => mapValOf (c + k) lvb fs.isEmpty (layEntries T k cp (c + k) false fs).1)
+      (fun _ _ _ => mapValOf_head _ _ _ _) (reads_mapVal hr hk hv.2.1 (by simpa using hv.2.2) (read_entries hr hk fs hv.2.1))
+  | .flowSeq _, hv => by simp [inFragP] at hv
+  | .flowMap _, hv => by simp [inFragP] at hv
+  | .commented _ _, hv => by simp [inFragP] at hv
+  | .spaceAfter _, hv => by simp [inFragP] at hv
+  | .litStr _, hv => by simp [inFragP] at hv
+  | .foldStr _, hv => by simp [inFragP] at hv
 /-- an item of a sequence: text after `- ` plus the following lines -/
-theorem read_item {w k : Nat} {cp : Bool} (hk : k ≥ 1) : ∀ (v : SVal), inFrag w v = true → ReadsItem (fun c lvb => layItem k cp c lvb v) (erase v)
-  | .unit, _ => by simpa [layItem, erase, resolvePlain_null] using reads_leaf_item plainTok_null
-  | .none, _ => by simpa [layItem, erase, resolvePlain_null] using reads_leaf_item plainTok_null
-  | .bool b, _ => by
-    cases b
-    · simpa [layItem, erase, resolvePlain_false] using reads_leaf_item plainTok_false
-    · simpa [layItem, erase, resolvePlain_true] using reads_leaf_item plainTok_true
-  | .int i, _ => by simpa [layItem, erase, resolvePlain_int] using reads_leaf_item (intText_plainTok i)
+theorem read_item {P : LeafPred} {T : Toks} {k : Nat} {cp : Bool} (hr : ReadContract P T) (hk : k ≥ 1) : ∀ (v : SVal), inFragP P v = true → ReadsItem (fun c lvb => layItem T k cp c lvb v) (erase v)
+  | .unit, _ => by simpa [layItem, erase] using reads_leaf_item scalarTok_null
+  | .none, _ => by simpa [layItem, erase] using reads_leaf_item scalarTok_null
+  | .bool b, _ => by simpa [layItem, erase] using reads_leaf_item (scalarTok_bool b)
+  | .int i, _ => by simpa [layItem, erase] using reads_leaf_item (scalarTok_int i)
   | .str t, hv => by
-    simp only [inFrag, Bool.and_eq_true] at hv
-    simpa [layItem, erase, resolvePlain_safe hv.1] using reads_leaf_item (safe_plainTok hv.1)
+    simp only [inFragP] at hv
+    simpa [layItem, erase] using reads_leaf_item (hr.str t hv)
   | .unitVariant e n, hv => by
-    simp only [inFrag, Bool.and_eq_true] at hv
-    simpa [layItem, erase, resolvePlain_safe hv.1] using reads_leaf_item (safe_plainTok hv.1)
+    simp only [inFragP] at hv
+    simpa [layItem, erase] using reads_leaf_item (hr.unit e n hv)
   | .some v, hv => by
-    simp only [inFrag] at hv
-    simpa [layItem, erase] using read_item hk v hv
+    simp only [inFragP] at hv
+    simpa [layItem, erase] using read_item hr hk v hv
   | .newtypeStruct v, hv => by
-    simp only [inFrag] at hv
-    simpa [layItem, erase] using read_item hk v hv
+    simp only [inFragP] at hv
+    simpa [layItem, erase] using read_item hr hk v hv
   | .seq xs, hv => by
-    simp only [inFrag] at hv
-    simpa [layItem, erase] using reads_seqItem hv (read_items hk xs hv)
+    simp only [inFragP] at hv
+    simpa [layItem, erase] using reads_seqItem hr hv (read_items hr hk xs hv)
   | .tuple xs, hv => by
-    simp only [inFrag] at hv
-    simpa [layItem, erase] using reads_seqItem hv (read_items hk xs hv)
+    simp only [inFragP] at hv
+    simpa [layItem, erase] using reads_seqItem hr hv (read_items hr hk xs hv)
   | .tupleStruct xs, hv => by
-    simp only [inFrag] at hv
-    simpa [layItem, erase] using reads_seqItem hv (read_items hk xs hv)
+    simp only [inFragP] at hv
+    simpa [layItem, erase] using reads_seqItem hr hv (read_items hr hk xs hv)
   | .map known es, hv => by
-    simp only [inFrag, Bool.and_eq_true, decide_eq_true_eq] at hv
-    simpa [layItem, erase] using reads_mapItem hv.1 (by simpa using hv.2) (read_entries hk es hv.1)
+    simp only [inFragP, Bool.and_eq_true, decide_eq_true_eq] at hv
+    simpa [layItem, erase] using reads_mapItem hr hv.1 (by simpa using hv.2) (read_entries hr hk es hv.1)
   | .newtypeVariant n v, hv => by
-    simp only [inFrag, Bool.and_eq_true] at hv
-    simpa [layItem, erase] using reads_variantItem hv.1 (r := fun c im lvb => layVal k cp im c lvb v)
-      (fun c im lvb => valHead_layVal k cp im v hv.2 c lvb) (read_val hk v hv.2)
+    simp only [inFragP, Bool.and_eq_true] at hv
+    simpa [layItem, erase] using reads_variantItem (hr.name n hv.1) (r := fun c im lvb => layVal T k cp im c lvb v)
+      (fun c im lvb => valHead_layVal hr k cp im v hv.2 c lvb) (read_val hr hk v hv.2)
   | .tupleVariant n xs, hv => by
-    simp only [inFrag, Bool.and_eq_true] at hv
-    simpa [layItem, erase] using reads_variantItem hv.1 (r := fun c im _ => seqValOf xs.isEmpty (layItems k cp (seqCol k cp im c) false xs).1)
-      (fun _ _ _ => seqValOf_head _ _) (reads_seqVal hk hv.2 (read_items hk xs hv.2))
+    simp only [inFragP, Bool.and_eq_true] at hv
+    simpa [layItem, erase] using reads_variantItem (hr.name n hv.1) (r := fun c im _ => seqValOf xs.isEmpty (layItems T k cp (seqCol k cp im c) false xs).1)
+      (fun _ _ _ => seqValOf_head _ _) (reads_seqVal hr hk hv.2 (read_items hr hk xs hv.2))
   | .structVariant n fs, hv => by
-    simp only [inFrag, Bool.and_eq_true, decide_eq_true_eq] at hv
-    simpa [layItem, erase] using reads_variantItem hv.1
-      (r := fun c _ lvb => mapValOf (c + k) lvb fs.isEmpty (layEntries k cp (c + k) false fs).1)
-      (fun _ _ _ => mapValOf_head _ _ _ _) (reads_mapVal hk hv.2.1 (by simpa using hv.2.2) (read_entries hk fs hv.2.1))
-  | .flowSeq _, hv => by simp [inFrag] at hv
-  | .flowMap _, hv => by simp [inFrag] at hv
-  | .commented _ _, hv => by simp [inFrag] at hv
-  | .spaceAfter _, hv => by simp [inFrag] at hv
-  | .litStr _, hv => by simp [inFrag] at hv
-  | .foldStr _, hv => by simp [inFrag] at hv
+    simp only [inFragP, Bool.and_eq_true, decide_eq_true_eq] at hv
+    simpa [layItem, erase] using reads_variantItem (hr.name n hv.1)
+      (r := fun c _ lvb => mapValOf (c + k) lvb fs.isEmpty (layEntries T k cp (c + k) false fs).1)
+      (fun _ _ _ => mapValOf_head _ _ _ _) (reads_mapVal hr hk hv.2.1 (by simpa using hv.2.2) (read_entries hr hk fs hv.2.1))
+  | .flowSeq _, hv => by simp [inFragP] at hv
+  | .flowMap _, hv => by simp [inFragP] at hv
+  | .commented _ _, hv => by simp [inFragP] at hv
+  | .spaceAfter _, hv => by simp [inFragP] at hv
+  | .litStr _, hv => by simp [inFragP] at hv
+  | .foldStr _, hv => by simp [inFragP] at hv
 /-- the items of a block sequence at depth `d` -/
-theorem read_items {w k : Nat} {cp : Bool} (hk : k ≥ 1) : ∀ (xs : List SVal), inFragList w xs = true → ReadsItems k cp xs
+theorem read_items {P : LeafPred} {T : Toks} {k : Nat} {cp : Bool} (hr : ReadContract P T) (hk : k ≥ 1) : ∀ (xs : List SVal), inFragListP P xs = true → ReadsItems T k cp xs
   | [], _ => reads_items_nil
   | x :: xs, hv => by
-    simp only [inFragList, Bool.and_eq_true] at hv
-    exact reads_items_cons hv.1 (read_item hk x hv.1) (read_items hk xs hv.2)
+    simp only [inFragListP, Bool.and_eq_true] at hv
+    exact reads_items_cons hr hv.1 (read_item hr hk x hv.1) (read_items hr hk xs hv.2)
 /-- the entries of a block mapping at depth `m` -/
-theorem read_entries {w k : Nat} {cp : Bool} (hk : k ≥ 1) : ∀ (es : List (SVal × SVal)), inFragEntries w es = true → ReadsEntries k cp es
+theorem read_entries {P : LeafPred} {T : Toks} {k : Nat} {cp : Bool} (hr : ReadContract P T) (hk : k ≥ 1) : ∀ (es : List (SVal × SVal)), inFragEntriesP P es = true → ReadsEntries T k cp es
   | [], _ => reads_entries_nil
   | (kk, v) :: es, hv => by
-    simp only [inFragEntries, Bool.and_eq_true, Bool.or_eq_true] at hv
+    simp only [inFragEntriesP, Bool.and_eq_true, Bool.or_eq_true] at hv
     rcases hv.1.1 with hsk | hck
-    · obtain ⟨kt, rfl, hkt⟩ := isSafeKey_iff hsk
-      exact reads_entries_cons hkt hv.1.2 hv.2 (read_val hk v hv.1.2) (read_entries hk es hv.2)
-    · exact reads_entries_cons_complex hck.1 hck.2 hv.1.2 hv.2 (read_item hk kk hck.2) (read_item hk v hv.1.2)
-        (read_entries hk es hv.2)
+    · obtain ⟨kt, rfl, hkt⟩ := keyOk_iff hsk
+      exact reads_entries_cons hr hkt hv.1.2 hv.2 (read_val hr hk v hv.1.2) (read_entries hr hk es hv.2)
+    · exact reads_entries_cons_complex hr hck.1 hck.2 hv.1.2 hv.2 (read_item hr hk kk hck.2) (read_item hr hk v hv.1.2)
+        (read_entries hr hk es hv.2)
 end
 
 end SaphyrVerif.Emit
